@@ -497,13 +497,17 @@ def _process_internal_events_without_default_matchers(
                 assert isinstance(event, InternalEvent)
                 started_instance = _get_reference_activated_flow_instance(state, event)
 
-            is_activated_child_flow = (
-                flow_id
-                == state.flow_states[
-                    event.arguments["source_flow_instance_uid"]
-                ].flow_id
-            )
-            if started_instance and not is_activated_child_flow:
+            source_flow = state.flow_states[event.arguments["source_flow_instance_uid"]]
+            is_activated_child_flow = flow_id == source_flow.flow_id
+            if (
+                is_activated_child_flow
+                and event.arguments.get("activated", None)
+                and source_flow.activated == 0
+            ):
+                # The flow was deactivated after the event to start its next instance
+                # had been created, so there is nothing to restart anymore.
+                pass
+            elif started_instance and not is_activated_child_flow:
                 # Activate a flow that already has been activated
 
                 started_instance.activated = started_instance.activated + 1
